@@ -41,8 +41,10 @@ theorem C01_update_then_call (c : Bridge.Ctx) (cp : Compiled) (inst : Installed)
     (hacc : Forall₂ (fun cl v => cl ∈ c.g.cov.get v) cs m.vp)
     (hptr : ∀ (p : Nat) (v : Int), (Walk.virtPtrs args)[p]? = some v → ∃ ci : Nat, cs[p]? = some ci ∧ v = inst.vptr.get ci)
     (hlen : (Walk.virtPtrs args).length = m.vp.length) (hpos : 0 < m.vp.length) :
-    ∃ mr cell, c.reg.methods[mi]? = some mr ∧ resolve inst mi args = .ok (Word.fn mi cell) ∧
-      Selects c.proj c.reg mr.defs ks (Bridge.outcomeOf mr.defs cell) := by
+    ∃ mr cell, c.reg.methods[mi]? = some mr ∧ Bridge.MethodMatches c m mr ∧
+      resolve inst mi args = .ok (Word.fn mi cell) ∧
+      Selects c.proj c.reg mr.defs ks (Bridge.outcomeOf mr.defs cell) ∧
+      (∀ i, cell = .defn i → ∃ df, mr.defs[i]? = some df) := by
   obtain ⟨hg, hms, _, houts, _⟩ := VtblContent.compile_fields c.proj c.reg cp hcomp
   have hgraph : cp.graph = c.g := by
     have := c.hg; rw [hg] at this; injection this
@@ -56,7 +58,7 @@ theorem C01_update_then_call (c : Bridge.Ctx) (cp : Compiled) (inst : Installed)
   have ho : cp.outs[mi]? = some (dispatchMethod cp.graph m) := by rw [houts, List.getElem?_map, hm]; rfl
   obtain ⟨gis, hloc⟩ := Report.locate c m 0 m.vp cs hacc
   obtain ⟨hcl, hgl⟩ := Cells.locatedAll_length c.g m 0 m.vp cs gis hloc
-  obtain ⟨cell, hres, hsel⟩ := C01_walk_correct c cp inst hinst hgraph mi m c.reg.methods[mi] hmm hm ho args cs ks gis hk hloc hlen hpos
+  obtain ⟨cell, hres, hsel, hdef⟩ := C01_walk_correct c cp inst hinst hgraph mi m c.reg.methods[mi] hmm hm ho args cs ks gis hk hloc hlen hpos
     (by
       intro p v gi hv hgi
       obtain ⟨ci, hci, hvp⟩ := hptr p v hv
@@ -66,6 +68,6 @@ theorem C01_update_then_call (c : Bridge.Ctx) (cp : Compiled) (inst : Installed)
       rw [Nat.zero_add, ← hgraph] at hl
       obtain ⟨row, h1, h2, h3⟩ := CompileSlots.vtbl_entry c.proj c.reg cp hcomp c.hwf mi m hm p _ ci gi hvpp hl
       exact ⟨⟨ci, row, hvp, h1, h2, h3⟩⟩)
-  exact ⟨_, cell, hmr, hres, hsel⟩
+  exact ⟨_, cell, hmr, hmm, hres, hsel, hdef⟩
 
 end Yomm2.Props.C01
